@@ -45,6 +45,7 @@ type Options struct {
 	Out     string // scratch directory for rewritten files and overlay.json
 	GoBin   string
 	Variant string // "", "c08" (map-range permutation), "c17" (yields inside Garble/Eval/Compute)
+	NoKnobs bool   // leave the tuning constants alone (fallback when a knob breaks the build)
 	Env     []string
 }
 
@@ -214,6 +215,7 @@ type fileCtx struct {
 	relPkg   string
 	relFile  string
 	tmpCount int
+	noKnobs  bool
 }
 
 func (c *fileCtx) typeOf(e ast.Expr) types.Type {
@@ -276,7 +278,7 @@ func rewritePkg(opt Options, fset *token.FileSet, imp types.Importer, p *listPkg
 	st.Packages++
 	for i, f := range files {
 		ctx := &fileCtx{
-			info: info, fset: fset, st: st, variant: opt.Variant,
+			info: info, fset: fset, st: st, variant: opt.Variant, noKnobs: opt.NoKnobs,
 			extra: map[ast.Expr]types.Type{}, recv2: map[*ast.UnaryExpr]bool{},
 			relPkg: relPkg, relFile: relPkg + "/" + p.GoFiles[i],
 		}
@@ -376,7 +378,7 @@ func (c *fileCtx) rewriteFile(f *ast.File) {
 				out := make([]ast.Stmt, 0, 2*len(*list))
 				for _, st := range *list {
 					if _, isDecl := st.(*ast.DeclStmt); !isDecl {
-						out = append(out, &ast.ExprStmt{X: &ast.CallExpr{Fun: rtSel("Yield")}})
+						out = append(out, &ast.ExprStmt{X: &ast.CallExpr{Fun: rtSel("YieldStmt")}})
 						c.st.StmtYields++
 					}
 					out = append(out, st)
@@ -391,8 +393,21 @@ func (c *fileCtx) rewriteFile(f *ast.File) {
 	doMap := c.variant == "c08" && mapRangePkgs[c.relPkg]
 	doYield := c.variant == "c17" && loopYieldFiles[c.relFile]
 
-	knobs := knobFiles[c.relFile]
 	declIdent := map[*ast.Ident]bool{}
+	knobs := knobFiles[c.relFile]
+	if c.noKnobs {
+		knobs = nil
+	}
+	// a tuning constant used where the language wants a constant (another constant's
+	// declaration, an array length) stays what it is
+	constCtx := func(n ast.Node) {
+		ast.Inspect(n, func(x ast.Node) bool {
+			if id, ok := x.(*ast.Ident); ok {
+				declIdent[id] = true
+			}
+			return true
+		})
+	}
 	knobCall := func(name string, def ast.Expr) ast.Expr {
 		c.mark(true)
 		c.st.Knobs++
@@ -401,6 +416,14 @@ func (c *fileCtx) rewriteFile(f *ast.File) {
 
 	pre := func(cur *Cursor) bool {
 		switch n := cur.Node().(type) {
+		case *ast.GenDecl:
+			if n.Tok == token.CONST && len(knobs) > 0 {
+				constCtx(n)
+			}
+		case *ast.ArrayType:
+			if n.Len != nil && len(knobs) > 0 {
+				constCtx(n.Len)
+			}
 		case *ast.Field:
 			for _, id := range n.Names {
 				declIdent[id] = true
